@@ -10,9 +10,9 @@ META = {
                   '_get_iis_from_list/partition_list'],
     'bounds': {'quick': 'every lengths vector with <=3 rows of length 1..3 (both constructor forms for a subset); element access with '
                         'SYMBOLIC integer indices (all integers at once); boolean ragged masks with symbolic truth values; row / '
-                        '(row, column) slices on a grid of bounds {None, -n-1, -n, -1, 0, 1, n, n+1} x steps {None,1,2,-1} (full grid for '
+                        '(row, column) slices on a grid of bounds {None, -n-1, -n, -1, 0, 1, n, n+1} x steps {None,1,2,-1,-2} (full grid for '
                         '1-D, rotating pairs for 2-D); element values symbolic; vector-valued elements (frames x 2) with a reduced index set',
-               'thorough': 'complete 2-D slice product with bounds -L-1..L+1 and steps {None,1,2,3,-1,-2}'},
+               'thorough': 'complete 2-D slice product with bounds -L-1..L+1 and steps {None,1,2,3,-1,-2,-3}'},
     'stubs': [],
     'assumptions': ['slice bounds are enumerated, not symbolic (stated grid); element values and scalar indices are symbolic',
                     'deviations are classified into regions of the index grammar; regions listed in known_findings.jsonl are known '
